@@ -532,7 +532,8 @@ func (c *converter) Exists(path string, valueUsed bool) (string, error) {
 
 func (c *converter) ReadFile(path string, valueUsed bool) (string, error) {
 	helper := c.nextHelperVar()
-	c.VarAssignment(helper, fmt.Sprintf("$(cat -- \"%s\")", path), false)
+	// The file is opened by the shell: as an operand of cat a path like "-" would stand for standard input.
+	c.VarAssignment(helper, fmt.Sprintf("$(cat < \"%s\")", path), false)
 	return c.VarEvaluation(helper, valueUsed, false)
 }
 
